@@ -168,6 +168,17 @@ CHECKS["C14"] = (
     "Assumes TLC and the projection (abundances quantised to 1e-8). The exact multinomial comparison for small formulas "
     "is not implemented yet (see DESIGN.md limits); patterns above 1200 peaks are skipped in the quick tier.",
     "DESIGN.md §6 C14")
+CHECKS["C13"] = (
+    "TLA+ reference spec (ModBuilder.tla: StaticForm, VariableForms as explicit subset enumeration) + TLC model check "
+    "of the include/exclude recursion machine with the modified-residue stop rule (MC_ModBuilder refines "
+    "InternalForms, no form twice, StaticForm idempotent) + TLC trace validation of recorded apply_static_mods / "
+    "apply_variable_mods calls (Trace_ModBuilder)",
+    "TLC shows, for every sequence up to 4 residues / rule set / max_mods up to 3, that the recursion machine emits "
+    "exactly the declaratively enumerated forms once each; recorded calls of the real builders are judged against "
+    "StaticForm (all three conflict modes, idempotence in skip mode, argument unchanged) and against VariableForms as a "
+    "set with no form twice (skip mode), or against the four weaker clauses of the statement (append / overwrite).",
+    "Assumes TLC and the projection; target regexes are limited to the three families the spec interprets; terminal "
+    "variable modifications are not counted against max_mods (the statement speaks of sites).", "DESIGN.md §6 C13")
 NOT_YET = "check not built yet in this round (planned with the TLA+ technique, see DESIGN.md §6)"
 
 
